@@ -28,6 +28,7 @@ type c05Conn struct {
 	writesAfterCloseWrite bool
 	writes      int
 	failWriteAt int // 1-based index of the write that fails (0: never)
+	detecting   bool // reads with an armed deadline time out when nothing has arrived (detection windows)
 }
 
 type c05Timeout struct{}
@@ -39,6 +40,10 @@ func (c05Timeout) Temporary() bool { return true }
 func c05New() *c05Conn { return &c05Conn{in: make(chan []byte, 8), wake: make(chan struct{})} }
 
 func (c *c05Conn) Read(p []byte) (int, error) {
+	if c.detecting && len(c.rest) == 0 && len(c.in) == 0 && c.armed() {
+		// protocol-detection phase: nothing has arrived and a deadline is armed: the window passes
+		return 0, c05Timeout{}
+	}
 	if len(c.rest) == 0 {
 		select {
 		case seg, ok := <-c.in:
@@ -73,6 +78,9 @@ func (c *c05Conn) Close() error {
 	c.closed = true
 	c.unblock()
 	return nil
+}
+func (c *c05Conn) armed() bool {
+	return len(c.deadlines) > 0 && !c.deadlines[len(c.deadlines)-1].IsZero() && !c.woken
 }
 func (c *c05Conn) unblock() {
 	if !c.woken {
@@ -186,4 +194,48 @@ func Verif_C05_relay_error() {
 	vs.Assert("the failure is reported", err != nil)
 	vs.Assert("both connections are closed", client.closed && upstream.closed)
 	vs.Assert("nothing after the failing write reached the upstream", len(upstream.out) == 2*(upstream.failWriteAt-1))
+}
+
+// Verif_C05_prefetch: the read-ahead for protocol detection (prefetchForTcpSniff) on two client
+// connections one after the other, then the relay of the first: the upstream of the first
+// connection receives exactly the first client's bytes - the bytes read ahead are that
+// connection's own, whatever later connections did with the probe buffer - the detection read
+// is bounded by one deadline that is cleared afterwards, and a client that sends nothing in the
+// window is relayed untouched.
+func Verif_C05_prefetch() {
+	vs.Schedules(0)
+	vs.Assume(time.Now().After(time.Unix(1000, 0)))
+	a, b, upstream := c05New(), c05New(), c05New()
+	a1 := vs.Bytes("a.seg1", 3+vs.Choice("a.len", 2)*13) // 3 or 16 bytes: below and at the probe size
+	a2 := vs.Bytes("a.seg2", 2)
+	b1 := vs.Bytes("b.seg1", 5)
+	early := vs.Choice("a.sendsEarly", 2) == 1
+	if early {
+		a.in <- a1
+	}
+	b.in <- b1
+	a.detecting, b.detecting = true, true
+	wrappedA, preA, readyA, errA := prefetchForTcpSniff(a, 100*time.Millisecond, tcpSniffPrefetchBytes)
+	_, _, _, _ = prefetchForTcpSniff(b, 100*time.Millisecond, tcpSniffPrefetchBytes)
+	a.detecting = false
+	vs.Assert("the probe itself does not fail", errA == nil)
+	if early {
+		vs.Assert("early bytes are reported as read ahead", readyA && c05Same(preA, a1))
+	} else {
+		vs.Assert("no early data: the connection is handed on as it is", !readyA && wrappedA == net.Conn(a))
+		a.in <- a1
+	}
+	vs.Assert("the detection read was bounded by a deadline that is cleared afterwards",
+		len(a.deadlines) == 2 && !a.deadlines[0].IsZero() && a.deadlines[1].IsZero())
+	go func() {
+		a.in <- a2
+		close(a.in)
+	}()
+	go func() { close(upstream.in) }()
+	var err error
+	go func() { err = RelayTCPContextWithRecords(context.Background(), wrappedA, upstream, nil, nil) }()
+	vs.Join()
+	want := append(append([]byte{}, a1...), a2...)
+	vs.Assert("relay ends cleanly", err == nil)
+	vs.Assert("the first connection's upstream receives exactly the first client's bytes", c05Same(upstream.out, want))
 }
